@@ -34,6 +34,7 @@ def catalogue() -> list[dict]:
             out.append({"id": f"{pid.lower()}-refactor-rename-all-locals", "property": pid, "expect": "silent", "transform": "rename-locals", "source": p.name})
             out.append({"id": f"{pid.lower()}-refactor-invert-all-ifs", "property": pid, "expect": "silent", "transform": "invert-ifs", "source": p.name})
             out.append({"id": f"{pid.lower()}-refactor-yoda-tuple-logging", "property": pid, "expect": "silent", "transform": "misc-rewrites", "source": p.name})
+            out.append({"id": f"{pid.lower()}-refactor-introduce-locals", "property": pid, "expect": "silent", "transform": "extract-temps", "source": p.name})
     # every kept seed (a change written by an independent sub-agent and confirmed to break its
     # property) must keep firing
     for mp in sorted((VERIF / "seeded").glob("*/meta.json")):
@@ -98,10 +99,10 @@ def run_variant(m: dict) -> dict:
             err = None
             if pr.returncode != 0 and "pynetdicom/" in (pr.stdout + pr.stderr) and "FAILED" in (pr.stdout + pr.stderr):
                 err = f"patch did not apply: {(pr.stdout + pr.stderr)[-200:]}"
-        elif m.get("transform") in ("rename-locals", "invert-ifs", "misc-rewrites"):
+        elif m.get("transform") in ("rename-locals", "invert-ifs", "misc-rewrites", "extract-temps"):
             # behaviour-preserving whole-tree rewrites: every local renamed / every if-else inverted, re-printed
             _copy_pkg(src, tmp)
-            tool = {"rename-locals": "rename_locals.py", "invert-ifs": "invert_ifs.py", "misc-rewrites": "misc_rewrites.py"}[m["transform"]]
+            tool = {"rename-locals": "rename_locals.py", "invert-ifs": "invert_ifs.py", "misc-rewrites": "misc_rewrites.py", "extract-temps": "extract_temps.py"}[m["transform"]]
             pr = subprocess.run([sys.executable, str(VERIF / "tools" / tool), str(tmp)], capture_output=True, text=True)
             err = None if pr.returncode == 0 else f"{tool} failed: {pr.stderr[-200:]}"
         else:
@@ -115,7 +116,7 @@ def run_variant(m: dict) -> dict:
         env["VERIF_EVIDENCE_DIR"] = str(tmp / "evidence")
         env["VERIF_NO_SELFTEST"] = "1"
         pr = subprocess.run(
-            [sys.executable, str(VERIF / "check"), m["property"], "--tier", "quick"],
+            [str(VERIF / "check"), m["property"], "--tier", "quick"],
             capture_output=True,
             text=True,
             env=env,
